@@ -115,7 +115,7 @@ def check_case(case):
         # the tool's own listing of what it wrote (what a user of file_util would see)
         tool = {}
         for o in ("cas", "dsk"):
-            if got[o] is not None and (o == "cas" or len(case["out"]) != 2):
+            if got[o] is not None and (o == "cas" or len(case["out"]) == 1):
                 try:
                     from cocoasm.virtualfiles.virtual_file import VirtualFile
                     from cocoasm.virtualfiles.source_file import SourceFile, SourceFileType
